@@ -189,12 +189,26 @@ def feasible(ctx, g):
         return False
     if g is True:
         return True
-    s = z3.Solver()
-    s.set("timeout", 20000)
-    for a in ctx.__dict__.get("path_assumptions", []):
-        s.add(a)
+    # one incremental solver per context: the pre-state assumptions are asserted once, each query is push/pop
+    pa = ctx.__dict__.get("path_assumptions", [])
+    cache = ctx.__dict__.get("_feas")
+    if cache is None or cache[1] != len(pa):
+        s = z3.Solver()
+        s.set("timeout", 20000)
+        for a in pa:
+            s.add(a)
+        cache = ctx.__dict__["_feas"] = (s, len(pa), {})
+    s, _, memo = cache
+    key = g.get_id() if hasattr(g, "get_id") else None
+    if key is not None and key in memo:
+        return memo[key]
+    s.push()
     s.add(g)
-    return str(s.check()) != "unsat"
+    r = str(s.check()) != "unsat"
+    s.pop()
+    if key is not None:
+        memo[key] = r
+    return r
 
 
 def gen_result(ctx, fr):
@@ -472,7 +486,7 @@ def exec_for(ctx, fr, s):
     if isinstance(it, SList):
         for k in range(it.cap):
             lp.cont = False
-            if it.home is not None and it.mask is None:
+            if it.home is not None and it.home[0] != "sdict" and it.mask is None:
                 # python's list iterator is index based and sees mutations made by the loop body:
                 # re-read the list object of the heap field at every step
                 _, c_, f_, t_ = it.home
@@ -912,7 +926,7 @@ def get_attr(ctx, fr, obj, name):
     if isinstance(obj, Local):
         if name in obj.f:
             v = obj.f[name]
-            if isinstance(v, SList) and v.home is not None:
+            if isinstance(v, SList) and v.home is not None and v.home[0] != "sdict":
                 # a view keeps a reference to the list OBJECT of a heap field: read its current contents
                 _, c_, f_, t_ = v.home
                 cur, _ok = ctx.h.read_list(Ref(t_, (c_,)), f_)
@@ -937,6 +951,13 @@ def get_attr(ctx, fr, obj, name):
             return BoundMethod(a.__func__, obj.cls, owner)
         if (id(obj.cls), name) in ctx.attr_over:
             return ctx.attr_over[(id(obj.cls), name)]
+        if type(a) in (list, set, dict) and not a:
+            # a mutable container defined at CLASS level is one object shared by every instance: it is modelled
+            # once per class (symbolic list / set / dict) so that what one object adds, the next one sees
+            from vf.e1 import ops as _ops
+            v = SList(0, [], None, isinstance(a, set)) if not isinstance(a, dict) else _ops.make_dict(ctx, fr, [])
+            ctx.attr_over[(id(owner), name)] = v
+            return v
         return a
     if isinstance(obj, SuperProxy):
         sv = obj.selfv
@@ -1173,7 +1194,7 @@ def write_field(ctx, fr, ref, name, v):
         over = h.write_list(g, cs[0], name, ref.t, sl)
         bound_if(ctx, fr, over, "list capacity exceeded writing %s.%s" % (cs[0], name))
         # ... and storing another object's list BY REFERENCE makes the two fields share one list
-        if src_home is not None and isinstance(v, SList) and v.home is not None:
+        if src_home is not None and src_home[0] != "sdict" and isinstance(v, SList) and v.home is not None:
             _, c2, f2, t2 = src_home
             al.append([(cs[0], name, ref.t), (c2, f2, t2), g])
         return
